@@ -181,12 +181,16 @@ def opaque_token(tag, rng, small=False):
         return str(rng.randrange(JSON_POOL))
     if tag in ("TChronoDate", "TTimeDate"):
         return str(rng.randrange(60000))
+    # time-of-day and date-time ids count nanoseconds (valueterm.rs): sub-second digits of every length
+    ns = lambda: rng.choice([0, 0, 1, 999, 1000, 123456789, 123456000, 500000000, 999999999, rng.randrange(10 ** 9)])
     if tag in ("TChronoTime", "TTimeTime"):
-        return str(rng.choice([0, 1, 999, 1000, 86399999, rng.randrange(86400000)]))
+        return str(rng.choice([0, 1, 999, 1000, 86399999, rng.randrange(86400)]) * 10 ** 9 % (86400 * 10 ** 9) + ns())
     if tag in ("TChronoDateTime", "TChronoDateTimeUtc", "TChronoDateTimeLocal", "TTimeDateTime"):
-        return str(rng.choice([0, 1, 86399, 86400, 2 ** 31 - 1, 2 ** 31, rng.randrange(4 * 10 ** 9)]))
+        return str(rng.choice([0, 1, 86399, 86400, 2 ** 31 - 1, 2 ** 31, rng.randrange(4 * 10 ** 9)]) * 10 ** 9 + ns())
     if tag in ("TChronoDateTimeWithTimeZone", "TTimeDateTimeWithTimeZone"):
-        return idk(4 * 10 ** 9, 3)
+        k = rng.randrange(4)
+        i = rng.randrange(4 * 10 ** 9) * 10 ** 9 + ns()
+        return "%d" % i if k == 0 else "%d~%d" % (i, k)
     if tag == "TUuid":
         return str(rng.choice([0, 1, 2 ** 128 - 1, 2 ** 64, rng.randrange(2 ** 128)]))
     if tag == "TDecimal":
